@@ -1,7 +1,231 @@
-From Coq Require Import ZArith List Bool.
-Require Import Rig.Generated.GenLoad Rig.Model.Base Rig.Model.Load Rig.Spec.Load Rig.Proofs.Load.
+(* C09 -- Application loading returns only when every requested core is loaded.
+   Property theorems only; each is closed by `exact` of a lemma of Proofs/Load*.v.
+
+   The controller model (Model/Load.v, part 2: load_application, flood_fill_aplx = a fold of fill_one,
+   send_signal, count_cores_in_state, the struct reads) calls the integer expressions of
+   Generated/GenLoad.v, which are re-translated from the text of machine_controller.py on every run, and
+   the region model of C12 (Model/Regions.v) for the core select list; so these theorems are re-checked
+   against the current packet fields, loop tests and counters of the code.  The machine (Model/Load.v,
+   part 1) is the documented semantics of the commands; a chip that misses a flood fill ignores every
+   packet of it, and WHICH chips miss the k-th fill is the k-th element of [m_sched], over which every
+   theorem below is universally quantified, like over the initial state of every core.
+
+   Notation: [named am] = the (binary, core) pairs of an application map; [holds bins m app st b c] =
+   core c holds the complete binary b under app id app in state st; [core_at m c] = state of core c. *)
+From Coq Require Import ZArith List Bool Sorted.
+Require Import Rig.Generated.GenLoad Rig.Model.Base Rig.Model.Regions Rig.Spec.Regions Rig.Model.Load Rig.Spec.Load.
+Require Import Rig.Proofs.LoadMachine Rig.Proofs.LoadCtrl Rig.Proofs.LoadFill Rig.Proofs.LoadLoop
+               Rig.Proofs.LoadWitness Rig.Proofs.LoadFuel Rig.Proofs.Load.
 Import ListNotations.
 Open Scope Z_scope.
 
-Theorem C09_next_nn_id_range : forall v, 0 <= v <= 126 -> 1 <= next_nn_id v <= 126.
-Proof. exact next_nn_id_range. Qed.
+(* ------------------------------------------------------------------------------------------------ *)
+(* Each flood fill is well formed.  The guards are exactly those under which the packet fields of the
+   code do not overflow: the binary is whole words and needs at most 255 blocks (the announced count
+   `n_blocks << 8` and the block number are 8-bit fields; `size = len // 4 - 1` drops a trailing partial
+   word and is negative, hence unpackable, for a block shorter than a word), the buffer size reported by
+   the machine is a multiple of 4 in 4 .. 1024 (the word count is an 8-bit field), the controller's fill
+   id is in 0 .. 126 (machine_wf, binary_ok, ctrl_wf of Spec/Load.v).
+
+   The packets of one fill are: the start packet, the core select packets, the read of the load address,
+   the data packets, the end packet ([ff_parts]: announced count = number of data packets; blocks numbered
+   0, 1, 2, ..; each holds the words it announces, at most a buffer-full, at consecutive addresses from
+   the load address; their concatenation is the binary; the end packet carries the start packet's id; the
+   core select packets lie between start and end and their keys (region << 18) | mask increase
+   strictly); the core select packets select exactly the requested cores; the id is the next one. *)
+Theorem C09_ff_wellformed :
+  forall c w aid flags data ts c' w',
+    ctrl_wf c (w_m w) -> machine_wf (w_m w) -> binary_ok (m_buffer (w_m w)) data ->
+    fill_one c w aid flags data ts = Ok (c', w') ->
+    exists ffs sels rd ds ffe,
+      sent w' = sent w ++ pre_of c ++ ([ffs] ++ sels ++ [rd] ++ ds ++ [ffe])
+      /\ ff_parts (m_buffer (w_m w)) (m_base (w_m w)) data ffs sels rd ds ffe
+      /\ (forall x y p, sels_select sels (x, y, p) = requested (cores_of_targets ts) x y p)
+      /\ field (q_a1 ffs) 16 8 = nn_id_wire (next_nn_id (c_nn c)).
+Proof. exact fill_one_wellformed. Qed.
+
+(* flood_fill_aplx of a whole map (what every attempt of load_application sends): one such fill per
+   entry, in map order, each selecting exactly the cores of its entry. *)
+Theorem C09_flood_fill_map :
+  forall bins am aid wait c w c' w',
+    ctrl_wf c (w_m w) -> machine_wf (w_m w) -> bins_ok (m_buffer (w_m w)) bins -> 0 <= aid < 256 ->
+    flood_fill_aplx bins c w am aid wait = Ok (c', w') ->
+    exists ps, sent w' = sent w ++ ps /\ fills_ok (m_buffer (w_m w)) (m_base (w_m w)) bins am ps.
+Proof. exact flood_fill_aplx_fills. Qed.
+
+(* What a well formed fill means for the machine -- for ANY packet list of that shape, not only the
+   controller's: on every chip that does not miss the fill exactly the selected cores receive the
+   reassembled image under the end packet's app id (waiting iff the wait flag is set); no other core
+   changes; one element of the schedule is consumed. *)
+Theorem C09_wellformed_fill_loads_selected :
+  forall m data ps ffs sels rd ds ffe,
+    ps = [ffs] ++ sels ++ [rd] ++ ds ++ [ffe] ->
+    Forall bcast ps ->
+    is_nn NN_FFS ffs -> Forall (is_nn NN_FFCS) sels -> is_read rd -> is_nn NN_FFE ffe ->
+    field (q_a1 ffs) 8 8 = zlen ds ->
+    blocks_ok (m_buffer m) (field (q_a1 ffs) 16 8) 0 (m_base m) ds ->
+    concat (map q_data ds) = data ->
+    field (q_a1 ffe) 0 8 = field (q_a1 ffs) 16 8 ->
+    hd_error (m_chips m) <> None ->
+    let m' := fst (replay m ps) in
+    m_sched m' = tl (m_sched m) /\ m_buffer m' = m_buffer m /\ m_base m' = m_base m /\ m_vcpu m' = m_vcpu m
+    /\ map fst (m_chips m') = map fst (m_chips m)
+    /\ forall x y p,
+         core_at m' (x, y, p) =
+         option_map (fun old => if negb (chip_mem (x, y) (hd [] (m_sched m))) && sels_select sels (x, y, p)
+                                then fill_core ffe data else old)
+                    (core_at m (x, y, p)).
+Proof. exact replay_fill. Qed.
+
+(* The fill id: 1 .. 126 in turn (sent doubled: an even byte 2 .. 252), the same id again only after 126
+   fills, never twice in a row; a new controller's first fill has id 1; flood-filling a map advances it
+   once per binary. *)
+Theorem C09_nn_id_cycle :
+  forall v, 1 <= v <= 126 ->
+    (forall k, 1 <= nn_iter k v <= 126 /\ 2 <= nn_id_wire (nn_iter k v) <= 252
+               /\ nn_id_wire (nn_iter k v) mod 2 = 0)
+    /\ (forall k, nn_iter k v = v <-> (Z.of_nat k) mod 126 = 0)
+    /\ next_nn_id v <> v
+    /\ next_nn_id nn_id_init = 1.
+Proof. exact nn_id_cycle. Qed.
+
+Theorem C09_nn_id_per_binary :
+  forall bins am aid wait c w c' w',
+    ctrl_wf c (w_m w) -> machine_wf (w_m w) -> bins_ok (m_buffer (w_m w)) bins -> 0 <= aid < 256 ->
+    flood_fill_aplx bins c w am aid wait = Ok (c', w') ->
+    c_nn c' = nn_iter (length am) (c_nn c).
+Proof. exact flood_fill_aplx_nn. Qed.
+
+(* ------------------------------------------------------------------------------------------------ *)
+(* load_application, both verification modes, whichever chips miss whichever fills (m_sched arbitrary),
+   whatever the cores hold before -- except for the two refuted regions, excluded by exactly these guards:
+     no_requested_waiting   no requested core is in `wait` before the call (both modes: the per-core
+                            check reads cpu_state only);
+     no_other_waiting       count mode only: no core that is not requested waits under the app id.
+   The other guards say that the call is in the code's domain (machine_wf, ctrl_wf, bins_ok as above;
+   map_wf: every core is named for at most one binary, lies in the 256 x 256 x 18 space and not on the
+   broadcast address (255, 255); the app id is a byte).
+
+   Normal return  =>  every requested core holds the complete binary named for it under the app id, in
+   `wait` when wait was asked, else started (`run`); every core that was not requested holds what it held
+   (image, app id), its state changed only by the start signal (wait -> run under this app id).
+   Otherwise SpiNNakerLoadingError whose map names exactly the requested cores that do not hold their
+   binary, nothing else having changed; there were at most n_tries + 1 attempts; each attempt (in
+   particular each retry) was addressed to exactly the requested cores that did not hold their binary at
+   that moment ([att_ok]; the packets of an attempt are those of C09_flood_fill_map for that map). *)
+Theorem C09_load_returns_iff_loaded :
+  forall bins c w am a c' w' out atts,
+    machine_wf (w_m w) -> ctrl_wf c (w_m w) -> map_wf am -> bins_ok (m_buffer (w_m w)) bins ->
+    0 <= a_app a < 256 ->
+    no_requested_waiting (w_m w) am ->
+    (a_count a = true -> no_other_waiting (w_m w) am (a_app a)) ->
+    load_application bins c w am a = Ok (c', w', out, atts) ->
+    match out with
+    | Returned =>
+        (forall b c0, In (b, c0) (named am) ->
+           holds bins (w_m w') (a_app a) (if a_wait a then STATE_WAIT else STATE_RUN) b c0)
+        /\ (forall c0, ~ In c0 (map snd (named am)) ->
+              core_at (w_m w') c0 =
+              option_map (fun s => if a_wait a then s else start_core 255 (a_app a) s) (core_at (w_m w) c0))
+    | LoadingError unl =>
+        incl (named unl) (named am)
+        /\ (forall b c0, In (b, c0) (named am) ->
+              (In (b, c0) (named unl) <-> ~ holds bins (w_m w') (a_app a) STATE_WAIT b c0))
+        /\ (forall c0, ~ In c0 (map snd (named am)) -> core_at (w_m w') c0 = core_at (w_m w) c0)
+    end
+    /\ Z.of_nat (length atts) <= Z.max 0 (a_tries a + 1)
+    /\ Forall (att_ok bins (a_app a) am) atts.
+Proof. exact load_application_spec. Qed.
+
+(* use_count = False: the guard about other cores is not needed. *)
+Theorem C09_load_state_mode :
+  forall bins c w am a c' w' out atts,
+    machine_wf (w_m w) -> ctrl_wf c (w_m w) -> map_wf am -> bins_ok (m_buffer (w_m w)) bins ->
+    0 <= a_app a < 256 -> no_requested_waiting (w_m w) am -> a_count a = false ->
+    load_application bins c w am a = Ok (c', w', out, atts) ->
+    match out with
+    | Returned =>
+        (forall b c0, In (b, c0) (named am) ->
+           holds bins (w_m w') (a_app a) (if a_wait a then STATE_WAIT else STATE_RUN) b c0)
+        /\ (forall c0, ~ In c0 (map snd (named am)) ->
+              core_at (w_m w') c0 =
+              option_map (fun s => if a_wait a then s else start_core 255 (a_app a) s) (core_at (w_m w) c0))
+    | LoadingError unl =>
+        incl (named unl) (named am)
+        /\ (forall b c0, In (b, c0) (named am) ->
+              (In (b, c0) (named unl) <-> ~ holds bins (w_m w') (a_app a) STATE_WAIT b c0))
+        /\ (forall c0, ~ In c0 (map snd (named am)) -> core_at (w_m w') c0 = core_at (w_m w) c0)
+    end
+    /\ Z.of_nat (length atts) <= Z.max 0 (a_tries a + 1)
+    /\ Forall (att_ok bins (a_app a) am) atts.
+Proof. exact load_state_mode. Qed.
+
+(* The count that the fast path compares: if no other core waits under the app id and every named core
+   either holds its binary or is not waiting at all, "as many cores wait under the app id as are named"
+   means that every named core is loaded. *)
+Theorem C09_count_means_all_loaded :
+  forall bins m am aid,
+    machine_wf m -> 0 <= aid < 256 -> NoDup (map snd (named am)) ->
+    (forall b c, In (b, c) (named am) -> ~ in_wait m c \/ holds bins m aid STATE_WAIT b c) ->
+    (forall c s, ~ In c (map snd (named am)) -> core_at m c = Some s ->
+                 ~ (cs_state s = STATE_WAIT /\ cs_app s = aid)) ->
+    core_count am = count_state STATE_WAIT 255 aid (m_chips m) ->
+    forall b c, In (b, c) (named am) -> holds bins m aid STATE_WAIT b c.
+Proof. exact Rig.Proofs.LoadCount.count_means_all_loaded. Qed.
+
+(* R: without no_other_waiting the clause is false in count mode (the default): one core waiting under the
+   same app id from an earlier load + one requested core whose chip misses the fill => the call returns
+   normally although that core is not loaded (every other guard holds).  Replayed on the real code by
+   the check on every run (known finding count-mode-stale-waiting-core). *)
+Theorem C09_load_count_mode_refuted :
+  exists bins c w am a c' w' atts b core,
+    machine_wf (w_m w) /\ ctrl_wf c (w_m w) /\ map_wf am /\ bins_ok (m_buffer (w_m w)) bins
+    /\ 0 <= a_app a < 256 /\ no_requested_waiting (w_m w) am /\ a_count a = true
+    /\ load_application bins c w am a = Ok (c', w', Returned, atts)
+    /\ In (b, core) (named am)
+    /\ ~ holds bins (w_m w') (a_app a) (if a_wait a then STATE_WAIT else STATE_RUN) b core.
+Proof. exact load_count_mode_refuted. Qed.
+
+(* R: without no_requested_waiting the clause is false also with use_count = False: a requested core that
+   still waits from an earlier load and whose chip misses every fill is taken for loaded (known finding
+   requested-core-already-waiting; replayed on the real code on every run). *)
+Theorem C09_load_requested_waiting_refuted :
+  exists bins c w am a c' w' atts b core,
+    machine_wf (w_m w) /\ ctrl_wf c (w_m w) /\ map_wf am /\ bins_ok (m_buffer (w_m w)) bins
+    /\ 0 <= a_app a < 256 /\ a_count a = false
+    /\ load_application bins c w am a = Ok (c', w', Returned, atts)
+    /\ In (b, core) (named am)
+    /\ ~ holds bins (w_m w') (a_app a) (if a_wait a then STATE_WAIT else STATE_RUN) b core.
+Proof. exact load_requested_waiting_refuted. Qed.
+
+(* The model's loop bounds are never reached, for any input: the fuel is not a hidden restriction and
+   the three loops of the code terminate. *)
+Theorem C09_load_never_out_of_fuel :
+  forall bins c w am a, load_application bins c w am a <> OutOfFuel.
+Proof. exact load_application_fuel. Qed.
+
+(* ------------------------------------------------------------------------------------------------ *)
+(* Non-vacuity.  A fresh two-chip machine on which chip (1, 0) misses the first fill satisfies every
+   hypothesis of C09_load_returns_iff_loaded in count mode; the call retries once and returns with core
+   (1, 0, 3) running its binary. *)
+Example C09_hypotheses_satisfiable :
+  machine_wf fresh_machine /\ ctrl_wf ctrl_init fresh_machine /\ map_wf k3_map
+  /\ bins_ok (m_buffer fresh_machine) ex_bins /\ 0 <= 30 < 256
+  /\ no_requested_waiting fresh_machine k3_map
+  /\ no_other_waiting fresh_machine k3_map 30
+  /\ exists c' w' atts,
+       load_application ex_bins ctrl_init (mkWorld fresh_machine []) k3_map (default_args 30)
+       = Ok (c', w', Returned, atts)
+       /\ length atts = 2%nat
+       /\ core_at (w_m w') (1, 0, 3) = Some (mkCore STATE_RUN 30 ex_bin1).
+Proof. exact fresh_example. Qed.
+
+(* The error branch is reachable: chip (1, 0) misses every fill; after n_tries + 1 = 3 attempts the error
+   names exactly core (1, 0, 3). *)
+Example C09_error_branch_reachable :
+  machine_wf deaf_machine /\ no_requested_waiting deaf_machine k3_map
+  /\ exists c' w' atts,
+       load_application ex_bins ctrl_init (mkWorld deaf_machine []) k3_map (state_args 30)
+       = Ok (c', w', LoadingError [(1, [((1, 0), [3])])], atts)
+       /\ length atts = 3%nat.
+Proof. exact deaf_example. Qed.
